@@ -50,6 +50,10 @@ TUS = {
     "t_denomv": {"sources": ["t_denom.cpp"], "parts": INT_PARTS, "flags": ["-DVX_DENOM_VECTOR=1"]},
     "t_scalar": {"sources": ["t_scalar.cpp"], "parts": INT_PARTS + FLT_PARTS},
     "t_convert": {"sources": ["t_convert.cpp"], "parts": INT_PARTS + FLT_PARTS, "cfg_flags": convert_pairs_flags},
+    "t_alloc": {"sources": ["t_alloc.cpp"], "c_sources": ["vx_malloc.c"], "parts": [None],
+                "flags": ["-fno-builtin-malloc", "-fno-builtin-free", "-fno-builtin-calloc", "-fno-builtin-realloc", "-fno-builtin-aligned_alloc", "-fno-builtin-posix_memalign", "-fno-builtin-memalign"]},
+    "t_alloc_san": {"sources": ["t_alloc_san.cpp"], "parts": [None],
+                    "flags": ["-O1", "-fsanitize=address,undefined", "-fsanitize-undefined-trap-on-error", "-fno-omit-frame-pointer"]},
     "t_select": {"sources": ["t_select.cpp"], "parts": INT_PARTS + FLT_PARTS},
 }
 
@@ -77,6 +81,14 @@ def scalar_cfgs(tier):
 
 
 PENDING = {}
+
+def alloc_cfgs(tier):
+    """the three implementations selected by the build: C++11/14 over-allocation, C++17/20 aligned_alloc, SSE _mm_malloc"""
+    cfgs = [C.Config([], "gcc", 11), C.Config([], "gcc", 17), C.Config(["SSE2"], "gcc", 11), C.Config([], "clang", 11), C.Config([], "clang", 17), C.Config(["SSE2"], "clang", 17)]
+    if tier == "thorough":
+        cfgs += [C.Config([], "gcc", 14), C.Config([], "gcc", 20), C.Config(["SSE2"], "gcc", 20), C.Config(C.FULL, "gcc", 11), C.Config([], "clang", 20)]
+    return cfgs
+
 
 PROPS = {
     "C01": {
@@ -262,5 +274,18 @@ PROPS = {
         "explanation": "every provided conversion on every lane value against static_cast; converted masks are decoded from their raw bytes, so a lane whose truth value changed or a "
                        "non-canonical representation is a failure",
         "assumptions": ["the list of width-1 cross-size conversions is scraped from the headers at run time"],
+    },
+    "C18": {
+        "tus": ["t_alloc", "t_alloc_san"],
+        "configs": alloc_cfgs,
+        "rule": "for T of size 1,2,3,4,8,16,64 and every power-of-two alignment A from alignof(T) to 4096: breadth-first search over multisets of <= 2 (quick) / 3 (thorough) live "
+                "allocations (n, malloc residue) with n in {0,1,3,8,17,4096/sizeof(T)+1} (quick) / {0,1,2,3,7,8,9,16,17,4096/sizeof(T)+1}; transitions: allocate(n) under every "
+                "environment answer (address of malloc modulo A in {0,16,A/2,A-16}; aligned_alloc/posix_memalign at 0 or A modulo 2A), deallocate of any live block in any order, "
+                "std::vector growth/copy/shrink under every residue; plus every sequence of <= 2/3 allocations freed in every order under ASan+UBSan with the system allocator. "
+                "non-trivial: n*sizeof(T) not a multiple of A or of sizeof(size_t), or a non-zero residue.",
+        "explanation": "the C allocation functions are interposed by a model heap with red zones; after every transition: pointer aligned to A, the n*sizeof(T) bytes inside one live "
+                       "block of the C allocator and disjoint from other live ranges, other blocks' fill patterns intact, free() receives exactly live pointers; at the end of every "
+                       "history no leak and no red-zone damage. The visited set is keyed on the sorted multiset: sound because the allocator is stateless (is_always_equal, no free list)",
+        "assumptions": ["glibc-like environment: malloc returns 16-byte aligned addresses", "heap errors under ASan abort the sanitizer run and are reported as a crash of that job"],
     },
 }
